@@ -23,6 +23,7 @@ func c09Config(rc *RunCtx) {
 	rc.Cfg["version"] = []int{2, 3, 3, 23}[r.Intn(4)]
 	rc.Cfg["pattern"] = r.Intn(5) // 0 mixed 1 ping-pong 2 A-only 3 bursts 4 refresh-heavy
 	rc.Cfg["starter"] = r.Intn(2)
+	rc.Cfg["damage"] = r.Intn(2)
 	pol := polFor(rc.Cfg["version"])
 	rc.Parties = []PartyCfg{{KeyIdx: 0, Pol: pol, Peer: 1}, {KeyIdx: 1, Pol: pol, Peer: 0}}
 }
@@ -120,9 +121,12 @@ func c09Run(rc *RunCtx) *Violation {
 			burst--
 			return Step{K: "send", A: burstWho, B: 1}, true
 		}
-		// sendA sendB delAB delBA tick burst refresh
-		wt := [][]int{{10, 10, 14, 14, 1, 2, 1}, {8, 8, 30, 30, 1, 0, 1}, {20, 1, 12, 12, 1, 3, 0}, {10, 10, 8, 8, 1, 8, 1}, {8, 8, 14, 14, 2, 1, 5}}[rc.Cfg["pattern"]%5]
+		// sendA sendB delAB delBA tick burst refresh damage
+		wt := [][]int{{10, 10, 14, 14, 1, 2, 1, 2}, {8, 8, 30, 30, 1, 0, 1, 2}, {20, 1, 12, 12, 1, 3, 0, 2}, {10, 10, 8, 8, 1, 8, 1, 2}, {8, 8, 14, 14, 2, 1, 5, 2}}[rc.Cfg["pattern"]%5]
 		wt = append([]int{}, wt...)
+		if fly[0]+fly[1] == 0 || rc.Cfg["damage"] == 0 {
+			wt[7] = 0
+		}
 		if fly[0] == 0 {
 			wt[2] = 0
 		}
@@ -149,8 +153,14 @@ func c09Run(rc *RunCtx) *Violation {
 		case 5:
 			burst, burstWho = 2+r.Intn(8), r.Intn(2)
 			return Step{K: "send", A: burstWho, B: 1}, true
-		default:
+		case 6:
 			return Step{K: "refresh", A: r.Intn(2)}, true
+		default:
+			a := r.Intn(2)
+			if fly[a] == 0 {
+				a = 1 - a
+			}
+			return Step{K: "damage", A: a, B: r.Intn(160)}, true
 		}
 	}
 	refreshes := 0
@@ -163,6 +173,18 @@ func c09Run(rc *RunCtx) *Violation {
 		case "deliver":
 			s.C = 0
 			w.Exec(s)
+		case "damage":
+			// line noise: a copy of the message at the head of a queue with one MAC bit flipped arrives first
+			l := w.Links[s.A%2][1-s.A%2]
+			if len(l) == 0 || !dataTyped(l[0].Bytes) {
+				continue
+			}
+			m := MutateData(o, s.A%2, l[0].Bytes, 13, s.B)
+			y := &Wire{ID: w.nextWire, From: s.A % 2, To: 1 - s.A%2, Bytes: m.Bytes, Note: "damaged-copy", Origin: l[0].ID, AuthChanged: true, Class: "mac"}
+			w.nextWire++
+			w.Arch = append(w.Arch, y)
+			w.Fault("damaged-copy")
+			w.Deliver(y)
 		case "refresh":
 			if w.TotalInFlight() > 0 {
 				continue
